@@ -94,7 +94,9 @@ def friendly_tiers(P, k):
     t3 = bases + small + fwd + [P.sfi == 0, UGE(P.pc, 32)]
     t4 = bases + [P.sfi == 0, UGE(P.pc, 32)]
     t5 = [P.sfi == 0]
-    return [t1, t2, t3, t4, t5]
+    # the same placement at any call depth (replayed behind `depth` local calls): needed when the model exists only at depth > 0
+    t1d = bases + small + rg + fwd + [UGE(P.pc, 48), ULT(P.pc, 200), ULE(P.prog_len, 8 * 400)]
+    return [t1, t2, t1d, t3, t4, t5]
 
 
 def short(msg):
